@@ -548,6 +548,10 @@ class Engine:
                             out.append((s2, fn, fid, t['target']))
                     return out
             callee = self.facts.fns.get(name)
+            if callee is not None and callee.derived and name.endswith(' as std::clone::Clone>::clone'):
+                # #[derive(Clone)]: a field-wise copy
+                self._write_place(st, fn, fid, t['dest'], _deref_arg(self, st, args[0]))
+                return [(st, fn, fid, t['target'])]
             if callee is not None and name in self.fold_only:
                 vals = [(_deref_arg(self, st, a) if a[0] == 'ref' else a) for a in args]
                 if not all(fully_const(v) for v in vals):
